@@ -1,9 +1,10 @@
 (* C09 - binary module, loader, disassembler and assembly listing agree.
    Only statements, [exact], Print Assumptions.  Proofs: Proofs/InstrsOk.v,
    CodecProofs.v, SectionProofs.v, ListingProofs.v, TargetsProofs.v *)
+From Coq Require Import String.
 From Coq Require Import ZArith List Bool.
 From QV Require Import Sx Strs Fl Machine Cpu Instrs Codec InstrCheck Listing Targets.
-From QV Require Import InstrsOk CodecProofs SectionProofs.
+From QV Require Import InstrsOk CodecProofs SectionProofs ListingProofs TargetsProofs.
 Import ListNotations.
 Open Scope Z_scope.
 
@@ -84,6 +85,43 @@ Theorem C09_wide_part_refuted :
 Proof. exact wide_part_rejected. Qed.
 Print Assumptions C09_wide_part_refuted.
 
+(* ---- listing, assembler, disassembler ---- *)
+
+(* the disassembly of the assembled items shows, instruction by instruction,
+   the mnemonic of the listing and its operands after resolution (labels ->
+   offsets computed from the generated table's sizes, variables -> indices,
+   devices/operations -> ids, literals -> index + text, floats -> the value at
+   operand width); [expected_dis] never encodes or decodes.  Guard: at most
+   32768 literals, so that no push$ index is read back negative (D30); beyond
+   it the statement is not proved (the disassembler itself reads '>H'). *)
+Theorem C09_disasm_matches_listing_partial : forall lits l code labels,
+  assemble lits l = AOk (code, labels) -> len lits <= 32768 ->
+  exists dl, expected_dis lits l = Some dl /\ dis_items lits code = DisOk dl /\
+             disasm lits code = DisOk (render_dis dl).
+Proof. exact disasm_matches_listing. Qed.
+Print Assumptions C09_disasm_matches_listing_partial.
+
+(* one instruction: mnemonic and operands of the disassembly entry *)
+Theorem C09_asm_one_spec : forall lits labels op args w off,
+  asm_one lits (fun n => assoc n labels) op args = AOk w ->
+  exists toks c, spec_args lits labels op args = Some (toks, c) /\
+                 dis_entry lits off (instr_of_w w) = Some (mkDline off op toks c).
+Proof. exact asm_one_spec. Qed.
+Print Assumptions C09_asm_one_spec.
+
+(* what the assembler emits for a mnemonic has the size the generated table says *)
+Theorem C09_assembled_size_is_table_size : forall lits lab op args w bs,
+  asm_one lits lab op args = AOk w -> encode_w w = Some bs -> table_size op = Some (len bs).
+Proof. exact asm_one_size. Qed.
+Print Assumptions C09_assembled_size_is_table_size.
+
+(* ---- targets, operands (the checker run on every module) ---- *)
+
+Theorem C09_targets_ok_sound : forall prog ng,
+  targets_ok prog ng = true -> targets_spec prog ng.
+Proof. exact targets_ok_sound. Qed.
+Print Assumptions C09_targets_ok_sound.
+
 (* non-vacuity *)
 Example C09_example_module :
   let m := mkBmod [[104; 105]; []] [[DText [49]; DEmpty]; []] 3 [23; 0; 0; 0; 1; 100] in
@@ -94,3 +132,21 @@ Example C09_example_module :
          4; 0; 0; 0; 6; 23; 0; 0; 0; 1; 100]
   /\ decode_code (b_code m) = COk [(0, IFrame 0 1); (5, IHalt)].
 Proof. vm_compute. split; reflexivity. Qed.
+
+(*   call _sub__main / halt / _sub__main: / frame 0, 1 / push$ "hi" / storel x$ / jmp _sub__main *)
+Example C09_example_listing :
+  let l := [AOp (L "call") [ASym (L "_sub__main")]; AOp (L "halt") []; ALabel (L "_sub__main");
+            AOp (L "frame") [AInt 0; AInt 1]; AOp (L "push$") [ASym (quote (L "hi"))];
+            AOp (L "storel") [AVar (L "x$") 0]; AOp (L "jmp") [ASym (L "_sub__main")]] in
+  assemble [L "hi"] l =
+    AOk ([5; 0; 0; 0; 6; 100; 23; 0; 0; 0; 1; 43; 0; 0; 95; 0; 0; 28; 0; 0; 0; 6],
+         [(L "_sub__main", 6)])
+  /\ expected_dis [L "hi"] l =
+     Some [mkDline 0 (L "call") [THex 6] None; mkDline 5 (L "halt") [] None;
+           mkDline 6 (L "frame") [TNum 0; TNum 1] None;
+           mkDline 11 (L "push$") [TNum 0] (Some (L "hi"));
+           mkDline 14 (L "storel") [TNum 0] None; mkDline 17 (L "jmp") [THex 6] None]
+  /\ targets_ok [(0, ICall 6); (5, IHalt); (6, IFrame 0 1); (11, IPushStr 0); (14, IStore true 0);
+                 (17, IJmp 6)] 0 = true
+  /\ targets_ok [(0, ICall 7); (5, IHalt); (6, IFrame 0 1); (11, IStore true 1)] 0 = false.
+Proof. vm_compute. repeat split; reflexivity. Qed.
